@@ -522,8 +522,12 @@ def check_c19(pid, tier, t0, replay_key):
     E = e1.E1(P)
     M = e1.build_model(E)
     findings, obl, samples, st6 = e6.run(P, M, tables)
+    fc, oc, sc = e6.rule_cache(P, tables)
+    findings += fc
+    obl += oc
     st = base_stats(P)
     st.update(st6)
+    st.update(sc)
     common.check_floors(pid, st, tables)
     if tier == "thorough":
         st["selftest"] = run_selftest(pid)
